@@ -1,16 +1,16 @@
 #!/usr/bin/env python3
 """Regenerates the seed tables of DESIGN.md §9 (between the markers) from /verif/seeded/*/meta.json."""
 import json, glob, os, re
-rows1, rows2, rows3, rows4 = [], [], [], []
+rows1, rows2, rows3, rows4, rows5 = [], [], [], [], []
 for d in sorted(glob.glob('/verif/seeded/*')):
     m = json.load(open(d + '/meta.json'))
     n = os.path.basename(d)
     det = m.get('detection') == 'DETECTED'
     by = ('`' + (m.get('detected_by') or '') + '`') if det else '**missed**'
-    if '-r2m' in n or '-r3m' in n or '-r4m' in n:
+    if '-r2m' in n or '-r3m' in n or '-r4m' in n or '-r5m' in n:
         fs = m.get('first_sweep', '')
         first = 'detected' if fs.startswith('DETECTED') else 'missed'
-        (rows2 if '-r2m' in n else rows3 if '-r3m' in n else rows4).append(f"| {n} | {m.get('what','')} | {first} | {by} | {m.get('history','')} |")
+        (rows2 if '-r2m' in n else rows3 if '-r3m' in n else rows4 if '-r4m' in n else rows5).append(f"| {n} | {m.get('what','')} | {first} | {by} | {m.get('history','')} |")
     else:
         rows1.append(f"| {n} | {m.get('what','')} | {by} | {m.get('history','')} |")
 def count(rows, col):
@@ -25,6 +25,9 @@ n3first = sum(1 for r in rows3 if r.split('|')[3].strip() == 'detected')
 t4 = "| seed | what the change does | first sweep | caught by (now) | history |\n|---|---|---|---|---|\n" + "\n".join(rows4)
 n4d = count(rows4, 4)
 n4first = sum(1 for r in rows4 if r.split('|')[3].strip() == 'detected')
+t5 = "| seed | what the change does | first sweep | caught by (now) | history |\n|---|---|---|---|---|\n" + "\n".join(rows5)
+n5d = count(rows5, 4)
+n5first = sum(1 for r in rows5 if r.split('|')[3].strip() == 'detected')
 s = open('/verif/DESIGN.md').read()
 a = s.index('<!-- SEEDS:BEGIN -->'); b = s.index('<!-- SEEDS:END -->')
 body = f"""<!-- SEEDS:BEGIN -->
@@ -56,7 +59,18 @@ than any rule written before it (section 6, items 27-45).
 
 {t4}
 
+### Round 5 ({len(rows5)} confirmed seeds; {n5first} detected by the first sweep, {n5d} detected now, {len(rows5)-n5d} missed)
+
+Round 5: every agent was given the list of all mutations of rounds 1-4 for its property "to avoid" and was again asked
+for defects of the unmodified code (section 6, items 46-59). Four deliveries repeated an earlier mutation under another
+property (the raw store read in `updateRefCount` for the fifth time - not kept; the empty method list that becomes a
+wildcard, the failed flush that loses `stor`, the height read before `addLock` - kept, because they showed that a rule
+existed but was registered for the sibling property only). *First sweep* "missed" for a seed whose rule existed under
+another property is recorded as missed.
+
+{t5}
+
 """
 s = s[:a] + body + s[b:]
 open('/verif/DESIGN.md', 'w').write(s)
-print(len(rows1), n1d, len(rows2), n2first, n2d, len(rows3), n3first, n3d, len(rows4), n4first, n4d)
+print(len(rows1), n1d, len(rows2), n2first, n2d, len(rows3), n3first, n3d, len(rows4), n4first, n4d, len(rows5), n5first, n5d)
